@@ -1368,6 +1368,11 @@ def getitem(interp, obj, idx):
             if ctx.valid(z3.And(zint(lo) >= 0, zint(lo) <= zint(hi), zint(hi) <= zint(n))):
                 ln = _norm(zint(hi) - zint(lo))
                 return obj.extract(lo, ln)
+            if isinstance(lo, int) and isinstance(hi, int) and lo >= 0 and hi >= 0 and ctx.valid(z3.And(zint(n) >= 0, zint(n) <= 64)):
+                # a short buffer (delivered by a read that was not length-checked): Python clamps the slice; exact case split
+                k = concretise(interp, n, 0, 64)
+                lo2, hi2, _ = slice(lo, hi).indices(k)
+                return SBytes([obj.byte_at(i) for i in range(lo2, max(hi2, lo2))])
             raise Unsupported("bytes slice with symbolic bounds not provably in range")
         idx = strip(idx)
         if isinstance(idx, int) and isinstance(n, int):
